@@ -459,7 +459,7 @@ def clean_request(rng, cfg, c, code=1, ident=None, auth=None, uname=None, pwdlen
     attrs += [(4, bytes([10, 0, 0, 9])), (31, b'00-11-22-33-44-55'), (33, rbytes(rng, 4))]
     if extra:
         attrs += extra
-    if ma:
+    if ma and code != 4:       # radsecproxy verifies a Message-Authenticator over the packet as received: an accounting request built here with one would not verify
         attrs.insert(rng.randrange(len(attrs) + 1), (80, None))
     pkt = radius.build(code, ident, auth, attrs, cl.secret)
     return pkt, dict(code=code, id=ident, auth=auth, uname=uname)
